@@ -492,7 +492,12 @@ func cyclePath(w *World, r *Report, ro *Roles, rule string) {
 		return
 	}
 	fn := ro.Start
-	res := w.EnumPaths(fn, EnumOpts{})
+	// (helpers of the start function — `abortJobStart(job, err)`, `runJob(job, graph)` — are spliced into its paths; the
+	// dequeue function is an anchor and stays a call)
+	res := w.EnumPaths(fn, EnumOpts{Inline: true, MaxPaths: 20000})
+	if res.Truncated || len(res.Paths) == 0 {
+		res = w.EnumPaths(fn, EnumOpts{})
+	}
 	r.Count("paths", len(res.Paths))
 	okErr, okOK := false, false
 	detail := ""
